@@ -68,6 +68,9 @@ def opOfJ (j : J) : Option Op := do
   | "setkey" => do pure (.setKey (← key) (← v))
   | "delkey" => do pure (.delKey (← key))
   | "append" => do pure (.append (← v))
+  | "extend" => do
+    let vs ← (j.getArr? "vs")
+    pure (.extend (← vs.mapM treeOfJ))
   | "rebind" => do
     let ps ← (j.getArr? "pairs")
     let pairs ← ps.mapM (fun it => match it with
@@ -93,7 +96,7 @@ def runSteps : T → List J → Option (List J)
     let recv ← (s.get? "recv").bind pathOfJ
     let notify := (s.getBool? "notify").getD true
     let op ← (s.get? "call").bind opOfJ
-    let out := step genResetOnSkip t recv notify op
+    let out := step t recv notify op
     let r := readAll [] out.tree
     let reads := r.2.2.filter (fun (p, _) => match getAt out.tree p with
       | some n => objFree n
